@@ -489,6 +489,11 @@ func oracleC09(r *Result) ([]Violation, bool) {
 	stopped := map[string]bool{} // stop returned nil, no Start call since
 	tStop := map[string]time.Duration{}
 	for _, e := range r.Trace {
+		if e.K == "teardown" {
+			// the harness aborts what is still in flight at the horizon; a stop call that
+			// had not returned by then is judged by the no-return clause only
+			break
+		}
 		switch e.K {
 		case "api.call":
 			if strings.HasPrefix(e.S, "stop") {
@@ -566,6 +571,9 @@ func oracleC09(r *Result) ([]Violation, bool) {
 				}
 				if sn.IsLeader {
 					s.add(e.T, "leader-after-stop", "%s reports leadership at %v although its stop call returned at %v", sn.I, e.T, tStop[sn.I])
+				}
+				if sn.WOpen > 0 && sn.Pend == 0 && !sn.Fine {
+					s.add(e.T, "watcher-not-stopped-after-stop", "%s: %d watcher(s) handed out to the instance have not been stopped although its stop call returned at %v and nothing is in flight", sn.I, sn.WOpen, tStop[sn.I])
 				}
 				if sn.State != "STOPPED" {
 					s.add(e.T, "state-after-stop/"+sn.State, "%s: Status().State is %s at %v after its stop call returned at %v", sn.I, sn.State, e.T, tStop[sn.I])
